@@ -46,6 +46,18 @@ CHECKS = {
     "C16": dict(cat="exploration", tech="runtime monitoring: canonical-form equality monitor over 30+ repeated preparations per text in one process and over key-permuted / consistently renamed variants",
                 text="All repeated preparations of each explored text gave one verdict and one canonical form (DAG, output schemas, namespaces up to generated ids); permuted and renamed variants gave the same form modulo ordering and names.",
                 note="Map-iteration orders are whatever the Go runtime produced over the repetitions; generated ids are unified when comparing variants.", ref="8/C16"),
+    "C12": dict(cat="exploration", tech="runtime monitoring: provider-level harness (RunnableStep.Start with a recording handler), lifecycle trace monitor, porcupine linearizability check of once-only stage inputs, deadlock oracle",
+                text="On all enumerated action sequences (length <= 3 quick / 4 thorough), sampled longer and overlapped histories, the plugin step's notifications formed a legal life story (each stage finished at most once and never also impossible, declared outputs only, exactly one completion then state finished), close calls returned without error and nothing was notified after they returned, provides never blocked and were accepted at most once per stage.",
+                note="Trusted: porcupine v1.3.0, event-log sequence numbers taken at the client boundary; NextStages edges are deliberately not asserted.", ref="8/C12"),
+    "C13": dict(cat="exploration", tech="runtime monitoring: reference-model oracle on loop results plus order/length/index-set/high-water-mark monitors over the plugin-boundary log; gates forcing out-of-order completion",
+                text="For all explored item lists, parallelism values, per-item outcomes, forced out-of-order completions, nested loops and mid-loop cancellations the loop reported results in item order with exact failing index sets, each item execution saw its own item, and never more than `parallelism` item executions were open.",
+                note="Trusted: vlib/ref.py foreach rule; parallelism is checked on non-nested loops only.", ref="8/C13"),
+    "C14": dict(cat="exploration", tech="runtime monitoring: per-run reference oracle and tag-isolation monitor over sequential, overlapped (up to 32) and cancelled runs of one prepared workflow and of two preparations of one text",
+                text="Every explored run returned what an isolated run with its input returns, no plugin input mixed data of two runs, and cancelling one run of an overlapped group did not perturb its siblings.",
+                note="Scripts depend only on the run's input tag, so each run has an independent reference.", ref="8/C14"),
+    "C15": dict(cat="exploration", tech="runtime monitoring: presence/ordering/value monitors per tag kind against the reference (set-valued for schedule-dependent presence), gates forcing both completion orders, deadlock oracle for never-ending optional sources",
+                text="For all explored placements, source outcomes and completion orders: wait-optional consumers started only after the source's terminal event and saw the field exactly when the source produced it, soft-optional never delayed a consumer and carried the source's value when present, one-of carried a produced alternative with its discriminator, or-disabled yielded result or disabled message.",
+                note="Trusted: vlib/ref.py tag semantics.", ref="8/C15"),
 }
 
 NOT_APPLICABLE = {}
